@@ -389,6 +389,14 @@ def main():
     cl += cpp_arms
     cl += ["  return false;", "}", ""]
     write_if_changed(os.path.join(HAR_DIR, "gen_dispatch.inc"), "\n".join(cl))
+    # per-overload structural statements of the wrappers, from their signatures (C17)
+    try:
+        import wrapspec
+        text, index, skipped = wrapspec.emit_lean(status)
+        write_if_changed(os.path.join(os.path.dirname(GEN_DIR), "Props", "C17Gen.lean"), text)
+        status["wrapspec"] = {"theorems": index, "skipped": skipped}
+    except Exception as e:
+        status["wrapspec"] = {"error": traceback.format_exc(limit=3)}
     status["wall_s"] = round(time.time() - t0, 2)
     write_if_changed(os.path.join(GEN_DIR, "STATUS.json"), json.dumps(status, indent=1, sort_keys=True))
     bad = [k for k, v in status["modules"].items() if not v["ok"]]
